@@ -57,12 +57,68 @@ fn to_primitive_number(value: &Value) -> Option<f64> {
 }
 
 pub fn str_to_number<S: AsRef<str>>(string: S) -> Option<f64> {
-    let s = string.as_ref();
+    let s = string.as_ref().trim_matches(is_js_whitespace);
     if s == "" {
-        Some(0.0)
-    } else {
-        f64::from_str(s).ok()
+        return Some(0.0);
     }
+    if let Some(radix) = match s.get(..2) {
+        Some("0x") | Some("0X") => Some(16),
+        Some("0o") | Some("0O") => Some(8),
+        Some("0b") | Some("0B") => Some(2),
+        _ => None,
+    } {
+        return radix_digits_to_number(&s[2..], radix);
+    }
+    let unsigned = s.strip_prefix(&['+', '-'][..]).unwrap_or(s);
+    if unsigned == "Infinity" {
+        return Some(if s.starts_with('-') {
+            f64::NEG_INFINITY
+        } else {
+            f64::INFINITY
+        });
+    }
+    // Only decimal literals remain; this excludes the "inf", "infinity"
+    // and "nan" spellings that `f64::from_str` would otherwise accept.
+    if !unsigned
+        .chars()
+        .all(|c| c.is_ascii_digit() || ".eE+-".contains(c))
+    {
+        return None;
+    }
+    f64::from_str(s).ok()
+}
+
+/// The characters JavaScript strips when converting a string to a number
+/// (WhiteSpace and LineTerminator).
+fn is_js_whitespace(c: char) -> bool {
+    match c {
+        '\u{9}' | '\u{A}' | '\u{B}' | '\u{C}' | '\u{D}' | ' ' | '\u{A0}' | '\u{1680}'
+        | '\u{2000}'..='\u{200A}' | '\u{2028}' | '\u{2029}' | '\u{202F}' | '\u{205F}'
+        | '\u{3000}' | '\u{FEFF}' => true,
+        _ => false,
+    }
+}
+
+/// The value of a non-empty string of digits in a power-of-two radix,
+/// correctly rounded however long the string is.
+fn radix_digits_to_number(digits: &str, radix: u32) -> Option<f64> {
+    if digits.is_empty() {
+        return None;
+    }
+    let mut acc: u128 = 0;
+    let mut dropped = 0;
+    for c in digits.chars() {
+        let digit = c.to_digit(radix)? as u128;
+        if acc >> 120 == 0 {
+            acc = acc * radix as u128 + digit;
+        } else {
+            // Far beyond the precision of a double: remember only whether
+            // anything non-zero was dropped, so that rounding stays correct.
+            acc |= (digit != 0) as u128;
+            dropped += 1;
+        }
+    }
+    Some(acc as f64 * (radix as f64).powi(dropped))
 }
 
 enum Primitive {
